@@ -12,7 +12,8 @@ open Lean PonyVerif.Drive PonyVerif.Model.DbSession
     | {"k":"seq","ps":[P..]} | {"k":"try","p":P,"catch":[exc..],"h":P}
     | {"k":"with","o":O,"p":P} | {"k":"call","o":O,"bodies":[P..]}   (execution i runs bodies[min(i, len-1)])
     | {"k":"bottle","resp":[exc..],"err":[exc..],"bodies":[P..]}   (isinstance(e, HTTPResponse) / isinstance(e, HTTPError))
-    | {"k":"iter","o":O,"steps":[{"writes":[..],"commit":b,"late":[..],"fin":"yield"|"ret"|{"raise":exc},"resume":"next"|"close"|{"throw":exc}}..]}
+    | {"k":"iter","o":O,"steps":[{"writes":[..],"commit":b,"late":[..],"fin":"yield"|"ret"|{"raise":exc},"resume":"next"|"close"|{"throw":exc},
+                                 "before":null|"read"|{"write":n} (the consumer's own db_session before this resume)}..]}
     | {"k":"flask","hooked":b,"view":P}
   O = {"retry":n,"ddl":b,"ser":b,"sid":n,"allowed":T,"retryable":T,"allowed_callable":b,"retry_callable":b}, T = {"yes":[exc..],"raises":[[exc,exc]..]}  (everything else: no)
   exc = "u<n>" | constructor name
@@ -109,7 +110,12 @@ def stepOfJson (j : Json) : Except String (Seg × Resume) := do
     | .null => pure Resume.next
     | .str "close" => pure Resume.close
     | v => do pure (Resume.throw (← excOfJson (optField v "throw")))
-  pure ({ writes := ← natsOfJson (optField j "writes"), manualCommit := ← boolD j "commit" false,
+  let before ← match optField j "before" with
+    | .str "read" => pure Between.read
+    | .null => pure Between.none
+    | .str "none" => pure Between.none
+    | v => do pure (Between.write (← natD v "write" 0))
+  pure ({ before := before, writes := ← natsOfJson (optField j "writes"), manualCommit := ← boolD j "commit" false,
           late := ← natsOfJson (optField j "late"), fin := fin }, resume)
 
 def pick (l : List Prog) (i : Nat) : Prog :=
